@@ -97,6 +97,21 @@ func (e *SpecEnv) lookup(name string) (Term, bool) {
 			}
 		}
 	}
+	// inside an inlined body (function literal or `inline` callee) invariants may name the variables of the call site:
+	// fall back to a live variable of that name if it is unique
+	if e.own && (len(u.inlineStack) > 0 || e.loopInv) {
+		var found *types.Var
+		n := 0
+		for v := range e.curState().vars {
+			if v.Name() == name {
+				found = v
+				n++
+			}
+		}
+		if n == 1 {
+			return u.readVar(e.curState(), found, token.NoPos), true
+		}
+	}
 	// package level
 	if e.pkg != nil {
 		if obj := e.pkg.Scope().Lookup(name); obj != nil {
